@@ -82,6 +82,13 @@ def scenario(rng):
         s.append({"do": "gate", "open": True})
         s += [{"do": "wait_producers"}, {"do": "wait_idle"}, {"do": "drop_guard"}]
     sc["kind"] = kind
+    # which kind of I/O error the failing writes report (the worker treats them all alike; none is retried by write_all)
+    sc["errkind"] = rng.choice(["other", "other", "broken_pipe", "connection_reset", "permission_denied", "timed_out", "unexpected_eof"])
+    # the guard may also be dropped by a panic unwinding through its owner (the panic is caught): it must shut down all the same
+    if rng.random() < 0.3:
+        for st in s:
+            if st["do"] == "drop_guard":
+                st["do"] = "drop_guard_unwind"
     # how the producers' handles are made and used; for scenarios that do not depend on a small queue also which constructor
     order = ["limit", "lossy"] + (["name"] if rng.random() < 0.5 else [])
     rng.shuffle(order)
